@@ -113,13 +113,13 @@ def run_groups(groups, envs, exe, wd, checks, res, extra):
             if not vec.get("gta", True) and not ("fault" in vec):
                 continue
             if "inp" in vec:     # fault vector
-                cid = "%d.%d" % (g["gid"], vi)
+                cid = "%s.%d" % (g["gid"], vi)
                 order = vec["ord"]
                 cases.append((cid, root, "D", order, bytes(vec["inp"]).hex()))
                 meta[cid] = (g, vec, order, bytes(vec["inp"]))
                 continue
             for order, data in (("L", vec["outL"]), ("B", vec["outB"]), ("N", vec["outL"])):
-                cid = "%d.%d.%s" % (g["gid"], vi, order)
+                cid = "%s.%d.%s" % (g["gid"], vi, order)
                 cases.append((cid, root, "D", order, bytes(data).hex()))
                 meta[cid] = (g, vec, order, bytes(data))
                 if overfill and order == "L":
